@@ -9,7 +9,8 @@ pub const DENOMS: [&str; 3] = ["uatom", "TOKEN", "eth"];
 pub const N_USERS: usize = 4;
 
 /// index (modulo the number of existing contracts, in creation order); 255 = a valid address
-/// at which no contract exists; 254 = a string that is not an address at all
+/// at which no contract exists; 254 = a string that is not an address at all; 253 = the first
+/// contract's address spelled in upper case
 #[derive(Clone, Copy, Debug, Serialize, Deserialize, PartialEq, Eq)]
 pub struct CRef(pub u8);
 
